@@ -330,8 +330,36 @@ def conc_cases(ctx, thorough):
     return out
 
 
+def is_state_phase(c):
+    return any(t[0] in (4, 5, 6) for t in c["threads"])
+
+
+def state_phases(ctx, thorough):
+    """the client runtime-state service (ConnectClient / EnsureClientOnline / DisconnectClientIfMatch) at GetState/SetState/
+    DeleteState granularity: the new login on node 2 races a heartbeat and/or the cleanup of the old connection on node 1"""
+    rng = ctx.rng
+    x = 7
+    old = [[4, 1, 1, x]]
+    out = []
+    for backend in ("memory", "redis", "hybrid-redis", "hybrid-shared-mem"):
+        for sched in multiset_perms([2, 2]):
+            out.append(mkc(backend, old, [[6, 1, 1, x], [4, 2, 2, x]], sched, 2, [x], "state:disconnect||connect:exhaustive"))
+            out.append(mkc(backend, old, [[5, 1, 1, x], [4, 2, 2, x]], sched, 2, [x], "state:heartbeat||connect:exhaustive"))
+    perms = multiset_perms([2, 2, 2])
+    for sched in (perms if thorough else rng.sample(perms, 30)):
+        out.append(mkc(rng.choice(["memory", "redis"]), old, [[5, 1, 1, x], [6, 1, 1, x], [4, 2, 2, x]], sched, 2, [x], "state:heartbeat||cleanup||connect"))
+    # no new login: heartbeats and a cleanup of a connection that is NOT the recorded one never disturb the record
+    for sched in rng.sample(perms, 20):
+        out.append(mkc("memory", [[4, 1, 1, x], [4, 2, 2, x]], [[5, 1, 1, x], [6, 1, 1, x], [5, 2, 2, x]], sched, 2, [x], "state:old-connection-noise"))
+    return out
+
+
 def conc_value(c, o):
     pad = lambda op: list(op) + [0] * (5 - len(op))
+    if is_state_phase(c):
+        return [list(o["variant"]), [PTR[c["backend"]], INCL[c["backend"]]], 3600000, 3, list(c["clients"]),
+                [[pad(op) for op in c["setup"]], [pad(t) for t in c["threads"]], list(o["sched"])],
+                [[list(a) for a in node] for node in o["final_rs"]]]
     return [list(o["variant"]), [PTR[c["backend"]], INCL[c["backend"]]], 3600000, 2, list(c["clients"]),
             [[pad(op) for op in c["setup"]], [pad(t) for t in c["threads"]], list(o["sched"])],
             [[(list(r) if r else None) for r in o["results"]], [[list(a) for a in node] for node in o["final"]]]]
@@ -420,7 +448,7 @@ def run(ctx, only_cases=None):
                             extra_obligations=SIDE_CONDITIONS)
     except vlib.Broken as b:
         broken = b   # keep going: evaluate the predicate on the real code first
-    all_cases = only_cases if only_cases is not None else load_corpus() + gen_cases(ctx, thorough) + conc_cases(ctx, thorough)
+    all_cases = only_cases if only_cases is not None else load_corpus() + gen_cases(ctx, thorough) + conc_cases(ctx, thorough) + state_phases(ctx, thorough)
     env = {"VERIF_C08_PAR": "32", "VERIF_REPO": vlib.REPO}
     all_outs = vlib.run_harness(binary, all_cases, timeout=1500, env=env)
     variant = all_outs[0]["variant"] if all_outs else None
